@@ -38,12 +38,19 @@ type Obligation struct {
 }
 
 type loopInfo struct {
-	ordinal int
-	header  *ssa.BasicBlock
-	blocks  map[*ssa.BasicBlock]bool
-	stored  []*ssa.Alloc
-	touch   map[string]bool
-	globals map[*ssa.Global]bool
+	ordinal  int
+	fn       *ssa.Function
+	header   *ssa.BasicBlock
+	blocks   map[*ssa.BasicBlock]bool
+	stored   []*ssa.Alloc
+	storedFV []*ssa.FreeVar // captured variables stored to inside the loop
+	touch    map[string]bool
+	globals  map[*ssa.Global]bool
+	inferred *inferredLoop
+}
+
+func (li *loopInfo) label() string {
+	return fmt.Sprintf("loop%d", li.ordinal)
 }
 
 type Exec struct {
@@ -58,6 +65,7 @@ type Exec struct {
 	obls          []*Obligation
 	entry         *State
 	loops         map[*ssa.BasicBlock]*loopInfo
+	loopsOf       map[*ssa.Function]bool
 	paths         int
 	watches       []watch
 	params        map[string]SV
@@ -68,6 +76,7 @@ type Exec struct {
 	curLoop       *loopInfo    // loop whose contract clauses are being interpreted (for `iter`)
 	collector     *[]inlineRet // non-nil while an uncontracted helper is executed inline
 	inlineDepth   int
+	curBinds      []SV   // bindings of the function literal about to be called
 	wrapped       []Term // errors bound to %w verbs of the format being interpreted
 	isInit        bool
 	reportLenient bool
@@ -302,6 +311,11 @@ func (ex *Exec) effectiveTags(kind string, tags []string) []string {
 	case "safety", "requires", "subset", "dep", "contract", "loop":
 		add("C14")
 		add(ex.fnTags()...)
+		if (kind == "subset" || kind == "contract" || kind == "loop") && !ex.ghostFn {
+			// the generator could not follow this code to its returns, so the frame
+			// obligations of the function were not generated: what it writes is undecided
+			add("C13", "C12")
+		}
 	case "variant":
 		add("C14")
 	case "inv-entry", "inv-preserved", "assert", "split-cover":
@@ -698,7 +712,7 @@ func (ex *Exec) run() {
 		for n := range ex.fc.Loops {
 			found := false
 			for _, li := range ex.loops {
-				if li.ordinal == n {
+				if li.ordinal == n && li.fn == ex.fn {
 					found = true
 				}
 			}
@@ -727,14 +741,58 @@ func (ex *Exec) watchSV(name string, sv SV, st *State) {
 
 func (ex *Exec) findLoops() {
 	ex.loops = map[*ssa.BasicBlock]*loopInfo{}
-	fn := ex.fn
+	ex.loopsOf = map[*ssa.Function]bool{}
+	ex.addLoops(ex.fn)
+}
+
+// escapingAllocs: local variables whose address is captured by a closure or
+// handed to a call: a call inside a loop may change them.
+func escapingAllocs(fn *ssa.Function) []*ssa.Alloc {
+	var out []*ssa.Alloc
+	for _, b := range fn.Blocks {
+		for _, in := range b.Instrs {
+			a, ok := in.(*ssa.Alloc)
+			if !ok || a.Referrers() == nil {
+				continue
+			}
+			esc := false
+			for _, r := range *a.Referrers() {
+				switch x := r.(type) {
+				case *ssa.MakeClosure:
+					esc = true
+				case *ssa.Call:
+					esc = true
+				case *ssa.Defer:
+					esc = true
+				case *ssa.Store:
+					if x.Val == ssa.Value(a) {
+						esc = true
+					}
+				}
+			}
+			if esc {
+				out = append(out, a)
+			}
+		}
+	}
+	return out
+}
+
+// addLoops finds the natural loops of fn (the function under contract, or a
+// function executed inline in it).
+func (ex *Exec) addLoops(fn *ssa.Function) {
+	if ex.loopsOf[fn] {
+		return
+	}
+	ex.loopsOf[fn] = true
+	escaping := escapingAllocs(fn)
 	var headers []*ssa.BasicBlock
 	for _, b := range fn.Blocks {
 		for _, s := range b.Succs {
 			if s.Dominates(b) {
 				li := ex.loops[s]
 				if li == nil {
-					li = &loopInfo{header: s, blocks: map[*ssa.BasicBlock]bool{s: true}, touch: map[string]bool{}, globals: map[*ssa.Global]bool{}}
+					li = &loopInfo{fn: fn, header: s, blocks: map[*ssa.BasicBlock]bool{s: true}, touch: map[string]bool{}, globals: map[*ssa.Global]bool{}}
 					ex.loops[s] = li
 					headers = append(headers, s)
 				}
@@ -770,6 +828,8 @@ func (ex *Exec) findLoops() {
 		li := ex.loops[h]
 		li.ordinal = i + 1
 		seen := map[*ssa.Alloc]bool{}
+		seenFV := map[*ssa.FreeVar]bool{}
+		calls := false
 		for b := range li.blocks {
 			for _, in := range b.Instrs {
 				if s, ok := in.(*ssa.Store); ok {
@@ -780,6 +840,18 @@ func (ex *Exec) findLoops() {
 					if g, ok := s.Addr.(*ssa.Global); ok {
 						li.globals[g] = true
 					}
+					if fv, ok := s.Addr.(*ssa.FreeVar); ok && !seenFV[fv] {
+						seenFV[fv] = true
+						li.storedFV = append(li.storedFV, fv)
+					}
+				}
+				switch c := in.(type) {
+				case *ssa.Call:
+					if _, isB := c.Call.Value.(*ssa.Builtin); !isB {
+						calls = true
+					}
+				case *ssa.Defer, *ssa.Go:
+					calls = true
 				}
 				if a, ok := in.(*ssa.Alloc); ok && !seen[a] {
 					// a variable declared inside the loop body is re-initialised each iteration
@@ -787,6 +859,15 @@ func (ex *Exec) findLoops() {
 					li.stored = append(li.stored, a)
 				}
 				ex.p.touchInstr(in, li.touch, li.globals)
+			}
+		}
+		if calls {
+			// a call may write the variables whose address has escaped
+			for _, a := range escaping {
+				if !seen[a] {
+					seen[a] = true
+					li.stored = append(li.stored, a)
+				}
 			}
 		}
 		sort.Slice(li.stored, func(a, b int) bool { return li.stored[a].Pos() < li.stored[b].Pos() })
@@ -803,7 +884,7 @@ func blockPos(b *ssa.BasicBlock) token.Pos {
 }
 
 func (ex *Exec) loopContract(li *loopInfo) *LoopContract {
-	if ex.fc == nil {
+	if ex.fc == nil || li.fn != ex.fn {
 		return nil
 	}
 	return ex.fc.Loops[li.ordinal]
@@ -936,16 +1017,33 @@ func (ex *Exec) atLoopHeader(st *State, li *loopInfo) bool {
 	ex.curLoop = li
 	defer func() { ex.curLoop = nil }()
 	lc := ex.loopContract(li)
-	label := fmt.Sprintf("loop%d", li.ordinal)
+	label := li.label()
+	if li.fn != ex.fn {
+		label = shortName(ex.p.contractName(li.fn)) + "/" + label
+	}
 	first := st.loops[li.header] == nil || !li.blocks[st.pred]
 	var hdrInstr ssa.Instruction
 	if len(li.header.Instrs) > 0 {
 		hdrInstr = li.header.Instrs[0]
 	}
+	// a loop without written clauses: in the function under contract that is a
+	// missing invariant; in code executed inline the clauses are guessed from the
+	// loop's shape (infer.go) and proved like written ones
+	var inf *inferredLoop
 	if lc == nil {
-		ex.failObl("loop", label+"/no-invariant", "loop without invariant", ex.fnTags(), hdrInstr)
-		st.dead = true
-		return false
+		if li.fn == ex.fn && ex.fc != nil && len(ex.fc.Loops) > 0 {
+			ex.failObl("loop", label+"/no-invariant", "loop without invariant", ex.fnTags(), hdrInstr)
+			st.dead = true
+			return false
+		}
+		inf = ex.inferLoop(li)
+		lc = &LoopContract{Ordinal: li.ordinal}
+	}
+	assigns := func(pre *State) *assignSet {
+		if inf != nil {
+			return ex.inferredAssigns(pre, li, inf)
+		}
+		return ex.loopAssigns(pre, lc)
 	}
 	if first {
 		pre := st.clone()
@@ -966,14 +1064,20 @@ func (ex *Exec) atLoopHeader(st *State, li *loopInfo) bool {
 			}
 		}
 		// havoc
-		for _, a := range li.stored {
+		as := assigns(pre)
+		for a := range ex.loopStoredCells(st, li) {
 			if sv, ok := st.cells[a]; ok {
 				st.cells[a] = ex.havocSV(st, "h_"+a.Comment, sv, a)
 			}
 		}
-		ex.havocHeap(st, pre, li.touch, li.globals, ex.loopAssigns(pre, lc), "lp")
+		ex.havocHeap(st, pre, li.touch, li.globals, as, "lp")
 		for _, inv := range lc.Invariants {
 			st.assume(ex.specBool(st, inv.Expr, &specCtx{mode: "loop"}))
+		}
+		if inf != nil {
+			for _, t := range ex.inferredInvariants(st, pre, li, inf) {
+				st.assume(t)
+			}
 		}
 		for _, inv := range ex.loopGlobalInvariants() {
 			t := ex.specBool(st, inv.Expr, &specCtx{mode: "exitinv"})
@@ -986,6 +1090,11 @@ func (ex *Exec) atLoopHeader(st *State, li *loopInfo) bool {
 			v := ex.spec(st, lc.Decreases.Expr, &specCtx{mode: "loop"})
 			lf.variant = ex.define(st, "variant", v.T)
 			lf.hasVar = true
+		} else if inf != nil {
+			if v, ok := ex.inferredVariant(st, li, inf); ok {
+				lf.variant = ex.define(st, "variant", v)
+				lf.hasVar = true
+			}
 		}
 		for _, u := range lc.Unfold {
 			ex.unfoldStep(st, u, &specCtx{mode: "loop"})
@@ -1004,6 +1113,11 @@ func (ex *Exec) atLoopHeader(st *State, li *loopInfo) bool {
 		g := ex.specBool(st, inv.Expr, &specCtx{mode: "loop"})
 		ex.oblige(st, "inv-preserved", label+"/"+inv.Label, g, inv.Tags, hdrInstr, inv.Src)
 	}
+	if inf != nil {
+		for i, t := range ex.inferredInvariants(st, lf.pre, li, inf) {
+			ex.oblige(st, "inv-preserved", fmt.Sprintf("%s/counter-bound%d", label, i+1), t, nil, hdrInstr, "guessed: a loop counter moves in one direction and stays within its exit bound")
+		}
+	}
 	for _, inv := range ex.loopGlobalInvariants() {
 		t := ex.specBool(st, inv.Expr, &specCtx{mode: "exitinv"})
 		h := ex.specBool(lf.head, inv.Expr, &specCtx{mode: "exitinv"})
@@ -1012,13 +1126,20 @@ func (ex *Exec) atLoopHeader(st *State, li *loopInfo) bool {
 		}
 	}
 	if lf.hasVar {
-		v := ex.spec(st, lc.Decreases.Expr, &specCtx{mode: "loop"})
-		ex.oblige(st, "variant", label+"/decreases", And(Ge(lf.variant, IntLit(0)), Lt(v.T, lf.variant)), []string{"C14"}, hdrInstr, lc.Decreases.Src)
+		var v Term
+		src := "guessed: bound - counter of the loop's exit test"
+		if lc.Decreases != nil {
+			v = ex.spec(st, lc.Decreases.Expr, &specCtx{mode: "loop"}).T
+			src = lc.Decreases.Src
+		} else {
+			v, _ = ex.inferredVariant(st, li, inf)
+		}
+		ex.oblige(st, "variant", label+"/decreases", And(Ge(lf.variant, IntLit(0)), Lt(v, lf.variant)), []string{"C14"}, hdrInstr, src)
 	} else {
 		ex.failObl("variant", label+"/missing", "loop without decreases clause", []string{"C14"}, hdrInstr)
 	}
 	// loop frame: everything outside the declared write set is as before the loop
-	ex.frameObligations(st, lf.pre, ex.loopAssigns(lf.pre, lc), "loop-frame", label, hdrInstr, nil)
+	ex.frameObligations(st, lf.pre, assigns(lf.pre), "loop-frame", label, hdrInstr, nil)
 	return false
 }
 
@@ -1076,6 +1197,10 @@ func (ex *Exec) loopAssigns(pre *State, lc *LoopContract) *assignSet {
 
 func (ex *Exec) havocSV(st *State, base string, old SV, a *ssa.Alloc) SV {
 	t := a.Type().(*types.Pointer).Elem()
+	if old.K == KSlice && old.Why == "bytearray" {
+		// the block of a local byte array never moves; its bytes live in the byte heap
+		return old
+	}
 	c := classify(t)
 	if c.K == KOpaque {
 		return old
